@@ -396,8 +396,8 @@ def _do_op(P: Proc, op: dict) -> dict:
                 P.slot_lookup[slot] = list(t.get("lookup") or [])
         src = t["src"]
         if src is None:
-            with P.vfs.open(t["file"], "r", encoding="utf-8") as f:
-                src = f.read()
+            # (the caller's own reading of the script is not what is under observation: no descriptor is charged for it)
+            src = P.vfs.nodes[P.vfs._resolve(t["file"])[0]][1].decode("utf-8")
         try:
             if op.get("handling"):
                 # the caller is handling an exception of its own while it compiles (an error handler that recompiles,
